@@ -147,6 +147,9 @@ def verify_function(qualname, opts=None):
             for label, f in conj(con.requires(NS(st, dict(args)))):
                 st.assume(f)
                 old.assume(f)
+        if getattr(con, "ghost_entry", None) is not None:
+            con.ghost_entry(NS(st, dict(args)), st)
+            old.heap = dict(st.heap)
         # vacuity: the precondition (with the axioms) must be satisfiable
         v = smt.satisfiable(st.pc, opts.get("vacuity_ms", 5000))
         if v.status == "unsat":
